@@ -1,4 +1,221 @@
+//! h2x — decides C08 (HTTP/2 responses complete and well-described under any flow-control
+//! schedule) by deviation-bounded exploration of the PEER's flow-control behaviour against the real
+//! actix HTTP/2 server connection. See ENGINE_GUIDE.md / DESIGN.md §4 C08.
+
+mod body;
+mod oracle;
+mod run;
+mod scenarios;
+mod spec;
+
+use mc_core::explore::{self, Cfg, Outcome, Scenario};
+use mc_core::report::{Evidence, Reporter, Violation};
+use mc_core::Chooser;
+use serde_json::{json, Value};
+use std::time::{Duration, Instant};
+
+struct Sc(spec::Scn);
+
+fn obs_value(scn: &spec::Scn, ex: &run::Exec) -> Value {
+    json!({
+        "scenario": scn.name,
+        "streams": ex.obs,
+    })
+}
+
+impl Scenario for Sc {
+    fn name(&self) -> String {
+        self.0.name.clone()
+    }
+    fn describe(&self) -> Value {
+        serde_json::to_value(&self.0).unwrap()
+    }
+    fn run(&self, ch: &mut Chooser) -> Outcome {
+        let scn = &self.0;
+        let ex = run::execute(scn, ch);
+        if ex.horizon {
+            mc_core::machinery(format!(
+                "scenario {} picks {:?}: still making progress after {} settle steps (horizon too small for this scenario)",
+                scn.name,
+                ch.picks(),
+                run::MAX_STEPS
+            ));
+        }
+        if let Some((loc, msg)) = &ex.task_panic {
+            if loc.contains("/h2x/src/") || loc.contains("/mc-core/") {
+                mc_core::machinery(format!("harness task panicked at {loc}: {msg}"));
+            }
+        }
+        let findings = oracle::check(scn, &ex);
+        let ov = obs_value(scn, &ex);
+        let class = mc_core::fnv_str(&ov.to_string());
+        let mut nontrivial = false;
+        for (i, st) in scn.streams.iter().enumerate() {
+            let exp = spec::expect(i, st);
+            if oracle::window_split(&exp, &ex.obs[i].frames) {
+                nontrivial = true;
+            }
+            if let (Some(u), Some(w)) = (&st.upload, scn.srv_win) {
+                if u.len > w as usize && ex.obs[i].h_read == u.len && u.read != spec::Read::Nothing {
+                    nontrivial = true;
+                }
+            }
+        }
+        let sample = if nontrivial {
+            Some(json!({
+                "scenario": scn.name,
+                "client_stream_window": scn.win,
+                "client_connection_window": scn.conn_win,
+                "server_stream_window": scn.srv_win,
+                "peer_choices": ch.trace.iter().enumerate().filter(|(_, p)| p.pick != 0)
+                    .map(|(i, p)| json!({"at": i, "kind": p.kind, "pick": p.pick})).collect::<Vec<_>>(),
+                "streams": scn.streams.iter().enumerate().map(|(i, st)| json!({
+                    "request": st.method, "status": st.status, "body": format!("{:?}", st.body),
+                    "data_frames": ex.obs[i].frames, "releases": ex.obs[i].releases,
+                    "end": format!("{:?}", ex.obs[i].end), "client_reset_at_step": ex.obs[i].client_reset,
+                })).collect::<Vec<_>>(),
+                "settle_steps": ex.steps,
+            }))
+        } else {
+            None
+        };
+        Outcome {
+            violations: findings
+                .into_iter()
+                .map(|f| Violation {
+                    property: "C08".into(),
+                    clause: f.clause.into(),
+                    signature: f.signature,
+                    what: f.what,
+                    replay: Value::Null,
+                    weight: 0,
+                })
+                .collect(),
+            class,
+            nontrivial,
+            sample,
+        }
+    }
+}
+
 fn main() {
-    eprintln!("MACHINERY: engine h2x is not built yet");
-    std::process::exit(2);
+    let args = mc_core::cli::parse();
+    if args.property != "C08" {
+        eprintln!("MACHINERY: engine h2x serves C08 only, not {}", args.property);
+        std::process::exit(2);
+    }
+    let thorough = args.tier == "thorough";
+    // H2X_ONLY=<substring> restricts the scenario set (development aid; evidence then says so)
+    let only = std::env::var("H2X_ONLY").ok();
+    let scns: Vec<Sc> = scenarios::all()
+        .into_iter()
+        .filter(|s| only.as_ref().map(|o| s.name.contains(o.as_str())).unwrap_or(true) || args.replay.is_some())
+        .map(Sc)
+        .collect();
+    if std::env::var("H2X_LIST").is_ok() {
+        for s in &scns {
+            println!("{}", s.0.name);
+        }
+        return;
+    }
+    {
+        let mut names = std::collections::HashSet::new();
+        for s in &scns {
+            if !names.insert(s.0.name.clone()) {
+                eprintln!("MACHINERY: duplicate scenario name {}", s.0.name);
+                std::process::exit(2);
+            }
+        }
+    }
+
+    if let Some(path) = &args.replay {
+        let file = mc_core::report::read_replay(path);
+        let rp = if file.get("replay").is_some() { file["replay"].clone() } else { file.clone() };
+        let name = rp["scenario"].as_str().unwrap_or("").to_string();
+        let Some(sc) = scns.iter().find(|s| s.0.name == name) else {
+            eprintln!("MACHINERY: scenario {name} not found");
+            std::process::exit(2);
+        };
+        explore::install_panic_hook();
+        let picks: Vec<u32> = rp["picks"].as_array().map(|a| a.iter().map(|x| x.as_u64().unwrap_or(0) as u32).collect()).unwrap_or_default();
+        let kinds: Option<Vec<String>> = rp["kinds"].as_array().map(|a| a.iter().map(|x| x.as_str().unwrap_or("").to_string()).collect());
+        let mut ch = match kinds {
+            Some(k) if k.len() == picks.len() => Chooser::with_kinds(picks.clone(), k),
+            _ => Chooser::new(picks.clone()),
+        };
+        println!("replay of scenario {name}");
+        println!("{}", serde_json::to_string_pretty(&sc.describe()).unwrap());
+        println!("picks: {picks:?}");
+        let res = std::panic::catch_unwind(std::panic::AssertUnwindSafe(|| run::execute(&sc.0, &mut ch)));
+        let ex = match res {
+            Ok(ex) => ex,
+            Err(_) => {
+                let (l, m) = explore::take_last_panic().unwrap_or_default();
+                eprintln!("MACHINERY: replay panicked at {l}: {m}");
+                std::process::exit(2);
+            }
+        };
+        if !ch.prefix_consumed() {
+            eprintln!("MACHINERY: replay divergence: execution ended after {} choice points, file has {}", ch.trace.len(), picks.len());
+            std::process::exit(2);
+        }
+        for l in &ex.log {
+            println!("  {l}");
+        }
+        println!("observation: {}", serde_json::to_string_pretty(&obs_value(&sc.0, &ex)).unwrap());
+        let findings = oracle::check(&sc.0, &ex);
+        if findings.is_empty() {
+            println!("RESULT: no oracle clause fails on this case");
+            std::process::exit(0);
+        }
+        for f in &findings {
+            println!("FAILS clause={} signature={}", f.clause, f.signature);
+            println!("  {}", f.what);
+        }
+        std::process::exit(1);
+    }
+
+    let start = Instant::now();
+    let mut reporter = Reporter::new("C08");
+    let bounds: Vec<u32> = scns
+        .iter()
+        .map(|s| if thorough { if s.0.core { 3 } else { 2 } } else { 1 })
+        .collect();
+    let wall = args.wall_s.unwrap_or(if thorough { 25 * 60 } else { 50 });
+    let cfg = Cfg { wall: Duration::from_secs(wall), threads: mc_core::cli::threads(), max_unknown: 12 };
+    let stats = explore::explore("C08", &scns, &bounds, &cfg, &mut reporter);
+
+    let mut ev = Evidence::new("C08", &args.tier, "exploration");
+    stats.fill(
+        &mut ev,
+        "each evaluation is one complete execution of the real actix HTTP/2 server connection against an h2 0.3 client whose flow-control behaviour is enumerated (after every DATA frame: release all / 1 byte / nothing; order of deferred releases; one RST_STREAM at any event boundary), for every scenario (windows x bodies x methods x statuses x headers x concurrent streams x uploads) and every combination of at most `deviation_bound_completed` non-default peer answers. distinct = distinct canonical observation (per stream: status, headers by name with date masked, DATA frame sizes, release pattern, how the stream ended, what the handler read). non-trivial = in that execution some body chunk arrived split over >= 2 DATA frames at an offset forced by the peer's window (not by the 16 384 cap), or an upload larger than the server's stream window was read completely by the handler",
+    );
+    ev.set("scenario_names", json!(scns.iter().map(|s| s.0.name.clone()).collect::<Vec<_>>()));
+    if let Some(o) = &only {
+        ev.set("restricted_to_scenarios_containing", o.clone());
+    }
+    ev.set("core_scenarios_bound", if thorough { 3 } else { 1 });
+    ev.set("findings", json!(reporter.summaries()));
+    ev.assume("the h2 0.3.27 client and tokio's LocalSet/paused clock are deterministic for a fixed sequence of peer actions (checked: default and failing schedules are executed twice and must give identical observations)");
+    ev.assume("task interleaving inside the server is the FIFO order of one LocalSet; only the peer's behaviour is enumerated, as the property quantifies over it");
+    ev.assume("response bodies report a truthful size(); handler-set content-length on streaming bodies is truthful");
+    ev.wall_s = start.elapsed().as_secs_f64();
+    ev.violations = reporter.unknown_count() as i64;
+    ev.write();
+
+    let code = reporter.finish();
+    println!(
+        "C08 {}: {} executions checked ({} incl. parents), {} scenarios, deviation bound completed {} (requested {}), {} observation classes, {} non-trivial, capped={}, {:.1}s",
+        args.tier,
+        stats.checked,
+        stats.executions,
+        stats.scenarios,
+        stats.bound_completed,
+        stats.max_bound_requested,
+        stats.classes.len(),
+        stats.nontrivial_classes.len(),
+        stats.capped,
+        start.elapsed().as_secs_f64()
+    );
+    std::process::exit(code);
 }
